@@ -98,7 +98,7 @@ func EnumSeqs(depth int, f func(ops []int)) {
 
 // SharedKinds are the consumer kinds of the shared-sub-slice enumeration; each
 // maps a slice of type <int,int>/1 to a slice of the same type.
-var SharedKinds = []string{"self", "map", "filter", "reshard1", "reshard2", "reshard3", "reshuffle", "reduce", "fold", "repartition-hash", "repartition-col0", "repartition-const"}
+var SharedKinds = []string{"self", "map", "filter", "reshard1", "reshard2", "reshard3", "reshuffle", "reduce", "fold", "repartition-hash", "repartition-col0", "repartition-const", "p2-reshuffle", "p2-cogroup"}
 
 // EnumShared builds Cogroup(A(s), B(s)) over one shared sub-slice s =
 // Map(source) (optionally carrying the Materialize pragma), where A and B are
@@ -142,6 +142,16 @@ func EnumShared(nshard, nrows int, materialize bool, a, b int) *Spec {
 			n = Node{Op: "repartition", Fn: &Fn{Kind: "col0"}}
 		case "repartition-const":
 			n = Node{Op: "repartition", Fn: &Fn{Kind: "const", M: 1}}
+		case "p2-reshuffle", "p2-cogroup":
+			// the same rows, shuffled by a two-column key through a Prefixed view of the shared slice
+			spec.Nodes = append(spec.Nodes, Node{Op: "prefixed", In: []int{shared}, N: 2})
+			op := Node{Op: "reshuffle", In: []int{len(spec.Nodes) - 1}}
+			if SharedKinds[k] == "p2-cogroup" {
+				op = Node{Op: "cogroup", In: []int{len(spec.Nodes) - 1}}
+			}
+			spec.Nodes = append(spec.Nodes, op)
+			spec.Nodes = append(spec.Nodes, Node{Op: "prefixed", In: []int{len(spec.Nodes) - 1}, N: 1})
+			return len(spec.Nodes) - 1
 		}
 		n.In = []int{shared}
 		spec.Nodes = append(spec.Nodes, n)
